@@ -299,7 +299,10 @@ class Interp:
         raise Unsupported('iteration over %r' % (v,))
 
     def binop(self, op, a, b):
-        if isinstance(a, Sym) or isinstance(b, Sym):
+        if isinstance(a, Sym) or isinstance(b, Sym) or (
+                self.symbolic_ops and any(
+                    isinstance(x, tuple) and x and x[0] == 'op'
+                    for x in (a, b))):
             if self.symbolic_ops:
                 return ('op', type(op).__name__, a, b)
             raise Unsupported('arithmetic on opaque value')
@@ -314,6 +317,16 @@ class Interp:
                 return a | b
             if isinstance(op, ast.BitAnd):
                 return a & b
+            if isinstance(op, ast.FloorDiv):
+                return a // b
+            if isinstance(op, ast.Mod) and not isinstance(a, str):
+                return a % b
+            if isinstance(op, ast.Pow) and isinstance(b, int) and \
+                    isinstance(a, int) and 0 <= b <= 10000 and \
+                    abs(a) <= 10:
+                return a ** b
+            if isinstance(op, ast.Div):
+                return a / b
         except Exception as e:
             raise _Raise(type(e).__name__)
         raise Unsupported('operator')
